@@ -264,6 +264,8 @@ def judge(op: Op, xs, ds, a):
         if ref_err is not None:
             if got_err is None:
                 return f"numpy raises {type(ref_err).__name__} ({str(ref_err)[:60]}) but the call returned"
+            if type(got_err) is type(ref_err):
+                return None  # the same exception class as NumPy's is a clean rejection whatever the class
             if impl.err_class(got_err) not in op.err_ok:
                 return f"numpy raises {type(ref_err).__name__}; call raised {type(got_err).__name__}: {str(got_err)[:120]}"
             return None
@@ -299,10 +301,32 @@ def judge_elemwise(op, xs, ds, a):
             g = box.get("got")
             return (f"the call returned an inconsistent {type(g).__name__} object (data is {type(getattr(g, 'data', None)).__name__}, attributes {sorted(getattr(g, '__dict__', {}))[:8]}): "
                     f"inspecting it raised {type(e).__name__}: {str(e)[:100]}")
+        if msg and op.tol and msg.startswith("values differ") and isinstance(box.get("got"), (sparse.SparseArray, np.ndarray)):
+            # power: NumPy answers a scalar exponent 0.5 / 2 / -1 through sqrt / square / reciprocal (ndarray.__pow__ and the ufunc's fast paths), an array
+            # exponent through pow: the last bit differs.  Values are compared with a relative tolerance for this family only.
+            with warnings.catch_warnings():
+                warnings.simplefilter("ignore")
+                r = np.asarray(op.ref(np, ds, a))
+            g = box["got"].todense() if isinstance(box["got"], sparse.SparseArray) else box["got"]
+            if same(g, r, True):
+                msg = None
         if msg and "dtype=" in op.name and msg.startswith("numpy raises UFuncTypeError but the call returned"):
             # dtype= requests NumPy refuses under the casting rule: the library documents "try our best to preserve the output dtype" and casts
             # the result instead; there is no NumPy value to compare with (recorded as an observation in coverage/API_COVERAGE.md, not a failure)
             msg = None
+        if msg and msg.startswith("raised ValueError") and not any(isinstance(x, np.ndarray) and x.ndim for x in xs):
+            # "when no sparse result exists the call raises ValueError": the function is not defined at the operands' FILL values (integer ** negative
+            # integer), although no element of the dense operands happens to hit that pair — there is no fill value the result could carry
+            try:
+                with warnings.catch_warnings():
+                    warnings.simplefilter("ignore")
+                    for zero_d_as_scalar in (False, True):
+                        op.ref(np, [(np.asarray(x.todense()) if (zero_d_as_scalar and x.ndim == 0) else np.asarray(x.fill_value)) if isinstance(x, sparse.SparseArray) else x
+                                    for x in xs], a)
+            except ValueError:
+                msg = None
+            except Exception:  # noqa: BLE001
+                pass
         if msg and msg.startswith("numpy raises "):
             # the same exception class as NumPy's is a clean rejection whatever the class (OverflowError for an out-of-range Python integer, …)
             head, _, tail = msg.partition("; call raised ")
@@ -430,7 +454,8 @@ def build_operands(rng, specs, fmt, mixed_formats=False):
     xs, ds, descs = [], [], []
     for j, s in enumerate(specs):
         if "raw" in s:  # non-sparse operand passed as is (ndarray, scalar, index array)
-            xs.append(s["raw"]); ds.append(s["raw"]); descs.append({"raw": jsonable(s["raw"])})
+            xs.append(s["raw"]); ds.append(s["raw"])
+            descs.append({"raw": jsonable(s["raw"]), **({"dtype": str(s["raw"].dtype)} if isinstance(s["raw"], (np.generic, np.ndarray)) else {"python": type(s["raw"]).__name__})})
             continue
         f = s.get("format") or (fmt if (j == 0 or not mixed_formats) else str(rng.choice(["coo", "gcxs", "dok"])))
         if f == "dok" and s["dense"].ndim == 0:
@@ -456,11 +481,18 @@ def run(ctx, pid, n=None, tables=None):
     reached = ctx.cov.setdefault("extra_ops_pairs", {})
     for i in range(total):
         op, fmt = pairs[i % len(pairs)] if i < 2 * len(pairs) else pairs[int(rng.integers(len(pairs)))]
-        for _attempt in range(5):
+        for _attempt in range(8):
             spec = op.gen(rng)
-            if spec is not None:
-                break
+            if spec is None:
+                continue
+            # a 0-d operand cannot be held in DOK form (build_operands falls back to COO): when DOK is the format under test, draw again
+            first = next((o for o in spec["operands"] if "dense" in o), None)
+            if fmt == "dok" and first is not None and first["dense"].ndim == 0 and _attempt < 7:
+                continue
+            break
         else:
+            continue
+        if spec is None:
             continue
         try:
             xs, ds, descs = build_operands(rng, spec["operands"], fmt, spec.get("mixed_formats", False))
@@ -1039,7 +1071,7 @@ def _no_zero_extent(g):
 
 def _elem(name, f, arity, gen_=None, formats=ALL, fill="func", **kw):
     """f(N-or-S agnostic): called as f(*operands) on both sides"""
-    return Op(name, (lambda S, xs, a, f=f: f(*xs)), (lambda N, ds, a, f=f: f(*ds)), gen_ or _g_elem(arity), formats, fill=fill, note="elemwise", **kw)
+    return Op(name, (lambda S, xs, a, f=f: f(*xs)), (lambda N, ds, a, f=f: f(*ds)), gen_ or _g_elem(arity), formats, fill=fill, note="elemwise", tol="**" in name, **kw)
 
 
 def _swap(f):
@@ -1064,10 +1096,15 @@ def _inplace(f):
 
 def _g_reflected(dtypes):
     """left operand: Python scalar / NumPy scalar / list-free; right operand: the sparse array"""
+    state = {"n": 0}
+
     def g(rng):
         o = operand(rng, max_rank=3, dtype=str(rng.choice(dtypes)), nonfinite=True, max_size=80)
         k = np.dtype(o["dense"].dtype).kind
         r = rng.random()
+        state["n"] += 1
+        if state["n"] % 2:  # every other visit a Python scalar: only those reach the reflected method (a NumPy scalar on the left goes through the ufunc)
+            r = r / 2
         if r < 0.5:
             v = int(rng.integers(-3, 4)) if k != "b" else bool(rng.integers(2))
             if k == "u":
@@ -1086,8 +1123,11 @@ def _fmt0_second(spec_gen):
 
 
 def _g_astype(rng):
-    o = operand(rng, max_rank=3, nonfinite=False, max_size=80)
-    return {"operands": [o], "args": {"dtype": str(rng.choice(DT_ALL)), "copy": bool(rng.random() < 0.5), "casting": str(rng.choice(["unsafe", "unsafe", "same_kind", "safe"]))}}
+    tgt = str(rng.choice(DT_ALL))
+    # (nan / inf -> integer is undefined behaviour in C and differs between NumPy's scalar and array loops: finite fills for integer targets)
+    fills = ("zero", "zero", "nonzero", "negzero") if np.dtype(tgt).kind in "iub" else ("zero", "zero", "nonzero", "nan", "inf", "negzero")
+    o = operand(rng, max_rank=3, nonfinite=False, max_size=80, fills=fills)
+    return {"operands": [o], "args": {"dtype": tgt, "copy": bool(rng.random() < 0.5), "casting": str(rng.choice(["unsafe", "unsafe", "same_kind", "safe"]))}}
 
 
 def _g_round(rng):
@@ -1176,6 +1216,13 @@ _NPNAME = {"abs": "absolute", "acos": "arccos", "acosh": "arccosh", "asin": "arc
            "bitwise_invert": "invert", "bitwise_not": "invert", "bitwise_left_shift": "left_shift", "bitwise_right_shift": "right_shift", "pow": "power", "conj": "conjugate"}
 
 
+# power: ndarray.__pow__ special-cases the exponents 2, 0.5, … (bool ** 2 is np.square -> int8, np.power -> int64), and complex power takes different inner loops
+# for a 0-d/scalar exponent than for an array (last-bit and inf/nan-pattern differences): NumPy's accidents, not the property.  Complex and bool power stay
+# with C01's own leg C (NumPy scalars, finite values).
+_DT_POW = ["uint8", "int8", "int16", "int64", "uint32", "float16", "float32", "float64"]
+_POW_KW = {"nonfinite": False, "fills": ("zero", "zero", "nonzero")}  # (pow at inf / nan / -0.0 is where libm's scalar and vector paths disagree)
+
+
 def _c01_table():
     t = []
     # (1) every element-wise function of the namespace, spelled sparse.<name>(…), on every format
@@ -1184,18 +1231,19 @@ def _c01_table():
         t.append(Op(f"sparse.{n}", (lambda S, xs, a, n=n: getattr(S, n)(xs[0])), (lambda N, ds, a, n=n: getattr(N, _NPNAME.get(n, n))(ds[0])), _g_elem(1, dtypes=dts), ALL,
                     fill="func", note="elemwise"))
     for n in _BINARY_UF:
-        dts = DT_INT if n.startswith("bitwise") else DT_ALL
+        dts = DT_INT if n.startswith("bitwise") else (_DT_POW if n == "pow" else DT_ALL)
         t.append(Op(f"sparse.{n}", (lambda S, xs, a, n=n: getattr(S, n)(xs[0], xs[1])), (lambda N, ds, a, n=n: getattr(N, _NPNAME.get(n, n))(ds[0], ds[1])),
-                    _g_elem(2, dtypes=dts), ALL, fill="func", note="elemwise"))
+                    _g_elem(2, dtypes=dts, **(_POW_KW if n == "pow" else {})), ALL, fill="func", note="elemwise", tol=(n == "pow")))
     # (2) operators: binary (sparse on the left), reflected (scalar on the left), in-place, unary
     for sym, f in _BIN.items():
-        dts = DT_INT if sym in _INT_ONLY else DT_ALL
-        t.append(_elem(f"x {sym} y", f, 2, _g_elem(2, dtypes=dts)))
+        dts = DT_INT if sym in _INT_ONLY else (_DT_POW if sym == "**" else DT_ALL)
+        t.append(_elem(f"x {sym} y", f, 2, _g_elem(2, dtypes=dts, **(_POW_KW if sym == "**" else {}))))
         if sym not in ("<", "<=", ">", ">=", "==", "!="):
-            t.append(Op(f"scalar {sym} x", (lambda S, xs, a, f=f: f(xs[0], xs[1])), (lambda N, ds, a, f=f: f(ds[0], ds[1])), _g_reflected(dts), ALL, fill="func", note="elemwise-reflected"))
+            t.append(Op(f"scalar {sym} x", (lambda S, xs, a, f=f: f(xs[0], xs[1])), (lambda N, ds, a, f=f: f(ds[0], ds[1])), _g_reflected(_DT_POW if sym == "**" else dts), ALL, fill="func",
+                        note="elemwise-reflected", tol=(sym == "**")))
     for sym, f in _IBIN.items():
-        dts = DT_INT if sym in _INT_ONLY else DT_ALL
-        t.append(_elem(f"x {sym} y", _inplace(f), 2, _g_elem(2, dtypes=dts, second=("sparse", "scalar", "pyscalar"))))
+        dts = DT_INT if sym in _INT_ONLY else (_DT_POW if sym == "**=" else DT_ALL)
+        t.append(_elem(f"x {sym} y", _inplace(f), 2, _g_elem(2, dtypes=dts, second=("sparse", "scalar", "pyscalar"), **(_POW_KW if sym == "**=" else {}))))
     for nm, f in (("-x", _op.neg), ("+x", _op.pos), ("abs(x)", abs), ("~x", _op.invert)):
         t.append(_elem(nm, f, 1, _g_elem(1, dtypes=DT_INT if nm == "~x" else DT_ALL)))
     # (3) namespace functions and methods named by the property
@@ -1358,7 +1406,7 @@ def _c03_table():
 
     t.append(_red("ufunc.reduce", _sp_ufred, _ref_ufred, _g_red(["bool", "uint8", "int8", "int64", "uint32"], extra=pick, max_size=40)))
     t.append(_red("ufunc.reduce(float)", _sp_ufred, _ref_ufred,
-                  _g_red(["float32", "float64"], extra=lambda rng: {"ufunc": str(rng.choice(["add", "multiply", "maximum", "minimum", "fmax", "fmin", "logical_or", "logical_and", "hypot"]))},
+                  _g_red(["float32", "float64"], extra=lambda rng: {"ufunc": str(rng.choice(["add", "multiply", "maximum", "minimum", "fmax", "fmin", "logical_or", "logical_and"]))},
                          max_size=40)))
     t.append(_red("ufunc.reduce(dtype=)", _sp_ufred, _ref_ufred, _g_red(["bool", "uint8", "int8", "int64", "float32", "float64"], with_dtype=_REQ_DT, extra=uf_dt, max_size=40)))
     t.append(_red("x.reduce(method)", lambda S, xs, a: xs[0].reduce(getattr(np, a["ufunc"]), **_kw(a, "axis", "keepdims", "dtype")), _ref_ufred,
